@@ -190,6 +190,50 @@ def install_stubs():
             return Adt(rt, ex.p.variant_index(rt, 'Ok'), [UNIT])
         return Adt(rt, ex.p.variant_index(rt, 'Err'), [Opaque('io::Error')])
 
+    # a locked / buffered standard output: the lock is the same handle; a BufWriter either keeps the text in its buffer (short text:
+    # NOTHING reaches the destination until flush() - what its Drop writes later is written with the error discarded, i.e. an
+    # unwritable destination is not reported) or passes a long text straight through; both are explored
+    @model(r'^std::io::Stdout::lock$')
+    def s_stdout_lock(ex, n, a, f):
+        return Opaque('Stdout')
+
+    @model(r"^<std::io::StdoutLock<'_> as std::io::Write>::write_all$")
+    def s_stdoutlock_write_all(ex, n, a, f):
+        return s_stdout_write_all(ex, n, a, f)
+
+    class BufW:
+        def __init__(self, inner):
+            self.inner, self.pending = inner, None
+
+    @model(r'^std::io::BufWriter::<.*>::(new|with_capacity)$')
+    def s_bufwriter_new(ex, n, a, f):
+        return BufW(a[-1])
+
+    @model(r'^<std::io::BufWriter<.*> as std::io::Write>::write_all$')
+    def s_bufwriter_write_all(ex, n, a, f):
+        rt = ret_ty(f)
+        w = ex.deref(a[0])
+        if not isinstance(w, BufW):
+            raise Unsupported('BufWriter::write_all on ' + repr(w)[:60])
+        if ex.choose(2, 'bufwriter.fits-in-buffer') == 0:
+            data = ex.deref(a[1])
+            w.pending = tuple(data.chars) if isinstance(data, (StrRef, StringV)) else tuple(c.v for c in data.cells)
+            ex.io_trace.append(('buffered', w.pending, True))
+            return Adt(rt, ex.p.variant_index(rt, 'Ok'), [UNIT])
+        return s_stdout_write_all(ex, n, [w.inner, a[1]], f)
+
+    @model(r'^<std::io::BufWriter<.*> as std::io::Write>::flush$')
+    def s_bufwriter_flush(ex, n, a, f):
+        rt = ret_ty(f)
+        w = ex.deref(a[0])
+        if isinstance(w, BufW) and w.pending is not None:
+            ok = ex.choose(2, 'stdout.write_all') == 0
+            ex.io_trace.append(('stdout', w.pending, ok))
+            w.pending = None
+            if not ok:
+                return Adt(rt, ex.p.variant_index(rt, 'Err'), [Opaque('io::Error')])
+        return Adt(rt, ex.p.variant_index(rt, 'Ok'), [UNIT])
+
     @model(r'^std::path::Path::display$')
     def s_path_display(ex, n, a, f):
         return ex.deref(a[0])
